@@ -75,3 +75,20 @@ Proof.
     do 9 apply Nat.succ_lt_mono in Hi. inversion Hi.
 Qed.
 Print Assumptions C15_pcd_boundary_refuted.
+
+(* ---- the boundary clause end to end for the mnn / 2nn metrics of the pure-Python engine (exact arithmetic, EQx): the crowding
+   vector of misc/mnn.py is finite outside the 2 x n_obj extreme rows, so for EVERY permutation that sorts it descending (every
+   tie-break), keeping quota >= 2 x n_obj members of the front keeps a holder of the minimum and a holder of the maximum of
+   every objective; any finite front with more points than neighbours, any n_remove. ---- *)
+From PV Require Import Proofs.CdP Proofs.FallbackP Proofs.BoundaryP.
+Theorem C15_boundary_mnn_fallback :
+  forall (twonn : bool) (F : list (list eq)) m (n_remove : Z) (front : list nat) quota sel perm sv,
+    fin_matrix F m -> 2 <= m -> length (hd [] F) = m -> (if twonn then 2 else m) < length F ->
+    let crowd := fallback_mnn (X := EQx) twonn F n_remove in
+    length front = length F -> length perm = length crowd -> NoDup perm -> Forall (fun i => i < length crowd) perm ->
+    pick crowd perm = Some sv -> sorted_by (N := EQn) true sv = true -> pick front (firstn quota perm) = Some sel ->
+    2 * m <= quota ->
+    forall j, j < m -> exists a b, holds_min (col (X := EQx) F j) a /\ holds_max (col (X := EQx) F j) b /\
+      (forall x, nth_error front a = Some x -> In x sel) /\ (forall x, nth_error front b = Some x -> In x sel).
+Proof. exact mnn_boundary_kept. Qed.
+Print Assumptions C15_boundary_mnn_fallback.
